@@ -1,11 +1,11 @@
 #!/bin/sh
-# seedverify.sh <id> [<dir>] : my own confirmation of a seeded change produced by a sub-agent.
+# seedverify.sh <id> [<dir> [<dest-name>]] : my own confirmation of a seeded change produced by a sub-agent.
 #   <dir> (default /tmp/seed/<id>) holds patch.diff, demo/demo_test.go, meta.json.
 # Uses a fresh scratch worktree of /repo HEAD (removed on exit): applies the patch, builds, runs the
 # whole pinned suite, runs the demo with the change (must fail) and without it (must pass).
 # On success copies patch.diff, demo/, meta.json to /verif/seeded/<id>/ and writes verify.log there.
 set -u
-id="$1"; dir="${2:-/tmp/seed/$id}"
+id="$1"; dir="${2:-/tmp/seed/$id}"; dest="${3:-$id}"
 root="$(cd "$(dirname "$0")/.." && pwd)"
 export GOFLAGS=-mod=readonly GOPROXY=off GOSUMDB=off GOTOOLCHAIN=local
 wt="$(mktemp -d /tmp/vseed.XXXXXX)"; rmdir "$wt"
@@ -29,8 +29,8 @@ git -C "$wt" apply -R "$dir/patch.diff"
 ( cd "$wt" && go test -vet=off -count=1 $race -run TestSeedDemo "./$pkg" ) > "$dir/demo_without.log" 2>&1; wo=$?
 say "demo with change: exit $w (want != 0); without: exit $wo (want 0)"
 if [ "$w" -ne 0 ] && [ "$wo" -eq 0 ] && grep -q '^ok' "$dir/demo_without.log"; then
-  mkdir -p "$root/seeded/$id/demo"
-  cp "$dir/patch.diff" "$dir/meta.json" "$root/seeded/$id/"; cp "$dir/demo/"* "$root/seeded/$id/demo/"
-  say "RESULT $id confirmed"; cp "$log" "$root/seeded/$id/verify.log"; exit 0
+  mkdir -p "$root/seeded/$dest/demo"
+  cp "$dir/patch.diff" "$dir/meta.json" "$root/seeded/$dest/"; cp "$dir/demo/"* "$root/seeded/$dest/demo/"
+  say "RESULT $id confirmed"; cp "$log" "$root/seeded/$dest/verify.log"; exit 0
 fi
 say "RESULT $id demo-not-discriminating"; tail -5 "$dir/demo_with.log" "$dir/demo_without.log" | tee -a "$log"; exit 1
